@@ -195,10 +195,10 @@ def static_locks(tier, seed, build, repo, verif):
             note += "; entry points missing from the skeleton: " + ", ".join(unknown)
         yield ("repo_balanced", False, note, {"failing_functions": failing, "skeleton": os.path.join(gen, "Skeleton.v")})
         if atomic_note:
-            yield ("repo_atomic_sections", False, atomic_note, {"failing_functions": atomic_failing, "skeleton": os.path.join(gen, "Skeleton.v")})
+            yield ("repo_atomic_sections", False, atomic_note, {"failing_functions": atomic_failing, "skeleton": os.path.join(gen, "Skeleton.v"), "search": {"cmd": "lockrace", "kind": "concurrent-locks-not-linearizable"}})
         return
     if atomic_note:
-        yield ("repo_atomic_sections", False, atomic_note, {"failing_functions": atomic_failing, "skeleton": os.path.join(gen, "Skeleton.v")})
+        yield ("repo_atomic_sections", False, atomic_note, {"failing_functions": atomic_failing, "skeleton": os.path.join(gen, "Skeleton.v"), "search": {"cmd": "lockrace", "kind": "concurrent-locks-not-linearizable"}})
         return
     if order_msgs:
         residue = []  # reported above; the graph is incomplete, nothing to say about cycles
